@@ -151,3 +151,19 @@ Proof.
   - intros c. apply String.eqb_eq. apply (filter_nil_all _ _ all_rnum_complete H3).
   - intros p Hp. apply String.eqb_eq. apply (filter_nil_in _ _ H4 p Hp).
 Qed.
+
+(* String -> Number outside the tabulated domain: every probed string (long digit strings, signs, blanks, non-ASCII
+   numerals, random strings; a finite list dumped on every run) converts as the unbounded specification says *)
+Lemma number_string_spec_range : forall s v, number_string_spec s = Some v -> (v < 1000)%N.
+Proof.
+  intros s v. unfold number_string_spec. destruct (match s with 43%N :: t => t | _ => s end) as [|c body]; [discriminate|].
+  destruct (forallb is_digit_cp (c :: body)); [|discriminate].
+  destruct (N.ltb_spec (digits_value (c :: body)) 1000); [|discriminate]. intros E; inversion E; subst; assumption.
+Qed.
+Lemma number_of_probed_strings : forall s r, In (s, r) number_of_string_probes ->
+  exists o, r = Some o /\ opt_eqb N.eqb o (number_string_spec s) = true.
+Proof.
+  assert (H : bad_number_of_string = []) by (vm_compute; reflexivity).
+  intros s r Hin. pose proof (filter_nil_in _ _ H _ Hin) as Hc. cbn [fst snd] in Hc.
+  destruct r as [o|]; [|discriminate]. exists o. split; [reflexivity | exact Hc].
+Qed.
